@@ -16,6 +16,10 @@ CHECKS = {
    technique="explicit-state search over output-directory states with real Generate transitions: every history of length <= 3 literally, plus breadth-first search with state hashing to a fixpoint (thorough); differential directory model",
    text="States are canonical directory contents, transitions are real generator invocations (library, and the CLI binary once per event to bind the two). Quick runs all 584 histories of length <= 3 over the property's 8-event alphabet from the empty directory and all histories of length <= 2 from directories holding user files / stale goag-named files; thorough runs 12 events to length 3 from all three initial states and a BFS to the fixpoint including a failing invocation. Invariant per transition: owned files equal a fresh run of the last invocation, other files untouched, repeating the invocation is a no-op.",
    note="the five owned names are defined by the model (README/flags), not read from goag; equal directory contents are assumed to have equal futures (Generate never reads file contents)"),
+ "C15": dict(engine="genrun", ref="§4 C15",
+   technique="exhaustive single-fault enumeration: every structural mutation of every node of every corpus document, each loaded and generated in a worker process; oracle = no panic / no process death, error carries a locator, CLI exit status agrees",
+   text="For every corpus document (repository specs and a spread of the level-1 cells) every single structural mutation at every node is applied (delete, null, five retypings, three $ref retargets, ancestor references creating non-component cycles, seven type and twelve format substitutions, parameter location swaps, schema moved under content, non-string server-variable defaults, 2-cycles between components). Each mutant the loader accepts is run through the real generator in a worker process (so stack overflows are observed, not fatal to the check); panics, process deaths, empty errors and errors that name no key of the mutated node's path are violations; a deterministic subset and every crashing mutant is re-run through the real CLI binary for the exit-status half.",
+   note="single mutations only (pairs are not enumerated); documents rejected by the kin-openapi loader are counted, not judged; the locator oracle is deliberately weak: any specific key on the JSON-pointer path of the mutated node (or the referenced name) appearing in the message satisfies it"),
 }
 NA_REASON = "check not built yet (work in progress; see DESIGN.md §13)"
 def main():
